@@ -201,11 +201,42 @@ fn run(h: &History, cx: &mut Cx) -> CaseResult {
     Ok(())
 }
 
+/// Scale probe (see probes.rs): two versions of a 10 012-file tree written with one entry
+/// per index hunk (a second index sub-directory); both must keep restoring exactly.
+fn enumerate(_tier: Tier, idx: u32, of: u32, cx: &mut Cx) -> CaseResult {
+    if !crate::probes::mine(idx, of) {
+        return Ok(());
+    }
+    let (opts, tree) = crate::probes::many_hunks_tree(10_012);
+    let sub = cx.dir("many-hunks");
+    std::fs::create_dir_all(sub.join("r")).unwrap();
+    let mut cx2 = crate::engine::sub_cx(cx, sub.clone());
+    let mut w = World::new(&sub, &tree);
+    let mut n = 0u32;
+    let s1 = w.apply(&Op::Backup(opts));
+    ensure!(matches!(&s1, StepKind::Backup { report, .. } if report.clean()), "C02/probe-many-hunks/backup", "{}", step_summary(&s1));
+    crate::engine::heartbeat();
+    let edit = crate::history::Edit::Modify { idx: 40_000, pool: 1, dlen: 1, mtime_s: 1_600_000_000, mtime_ns: 7 };
+    let _ = w.apply(&Op::Mutate(vec![edit, crate::history::Edit::Remove { idx: 65_000 }]));
+    let s2 = w.apply(&Op::Backup(opts));
+    ensure!(matches!(&s2, StepKind::Backup { report, .. } if report.clean()), "C02/probe-many-hunks/backup", "{}", step_summary(&s2));
+    crate::engine::heartbeat();
+    cx2.scratch = sub.clone();
+    check_all_versions(&w, &cx2, 2, &mut n).map_err(|mut f| {
+        f.signature = format!("{}/probe-many-hunks", f.signature);
+        f
+    })?;
+    crate::engine::force_remove(&sub);
+    cx.add_evals(n as u64);
+    cx.inner_nontrivial += 1;
+    Ok(())
+}
+
 pub fn prop() -> Prop<History> {
     Prop {
         id: "C02",
         level: "exploration",
-        rule: "case = history (initial tree + <=14 ops quick / <=30 thorough over mutate/backup(options)/backup interrupted before its k-th mutating storage op (optionally leaving an empty file)/delete(subset, dry-run)/gc), interpreted against a model that remembers the source tree of every completed version; after EVERY step every surviving complete version is restored by id and compared byte/metadata-exact with its snapshot, and restore(latest) must equal the newest (or fail iff none). Non-trivial = >=2 completed backups with a mutation between them and at least one of {interrupted-then-resumed, delete of a middle version, gc, file<->dir swap}; distinct by case hash; evaluations = restores compared",
+        rule: "case = history (initial tree + <=14 ops quick / <=30 thorough over mutate/backup(options)/backup interrupted before its k-th mutating storage op (optionally leaving an empty file)/delete(subset, dry-run)/gc), interpreted against a model that remembers the source tree of every completed version; after EVERY step every surviving complete version is restored by id and compared byte/metadata-exact with its snapshot, and restore(latest) must equal the newest (or fail iff none). Non-trivial = >=2 completed backups with a mutation between them and at least one of {interrupted-then-resumed, delete of a middle version, gc, file<->dir swap}; distinct by case hash; evaluations = restores compared; plus one fixed scale probe per run (two versions of a 10 012-file tree with one entry per index hunk)",
         assumptions: &[
             "interruption = storage frozen at a transport-operation boundary (all later operations fail without touching the directory)",
             "content changes always change mtime or size (documented heuristic)",
@@ -213,8 +244,8 @@ pub fn prop() -> Prop<History> {
         cases: |t| t.pick(600, 20_000),
         strategy,
         run,
-        enumerate: None,
+        enumerate: Some(enumerate),
         exhaustive: |_| false,
-        max_shrink_iters: 1500,
+        max_shrink_iters: 400,
     }
 }
